@@ -99,6 +99,26 @@ Definition ends_with (sfx l : str) : bool := starts_with (rev sfx) (rev l).
 Fixpoint last_opt {A} (l : list A) : option A :=
   match l with [] => None | [x] => Some x | _ :: r => last_opt r end.
 
+(* split at a separator; never the empty list: split_on sep [] = [[]] *)
+Fixpoint split_on (sep : N) (s : str) : list str :=
+  match s with
+  | [] => [[]]
+  | c :: r => if c =? sep then [] :: split_on sep r else
+              match split_on sep r with
+              | [] => [[c]]
+              | w :: ws => (c :: w) :: ws
+              end
+  end.
+Fixpoint split_once_at (sep : N) (s : str) : option (str * str) :=
+  match s with
+  | [] => None
+  | c :: r => if c =? sep then Some ([], r) else
+              match split_once_at sep r with Some (a, b) => Some (c :: a, b) | None => None end
+  end.
+Definition nonempty (s : str) : bool := match s with [] => false | _ => true end.
+(* path segments: split at '/', empty segments dropped *)
+Definition segs (p : str) : list str := filter nonempty (split_on 47 p).
+
 (* fuelled iteration result *)
 Inductive res (A : Type) := Ok (a : A) | Err | OutOfFuel.
 Arguments Ok {A} a.  Arguments Err {A}.  Arguments OutOfFuel {A}.
